@@ -13,9 +13,14 @@ prefix of every call's sub-operations (failed or interrupted writes / removes), 
       fails** although the cold store has it (DESIGN §7 #15, known finding: `check --read-data`).
 * (3) `repair_hotcold_restores` — from ANY hot store (files missing, or incomplete = of another size) the repair makes
       hot ⊇ cold again and never changes a cold file (`repair_keeps_cold`) — for the repaired code.
-* The warm-up clause of the property has no theorem here; it is checked by the cold-strict oracle of the harness.
+* (4) `warmup_before_read` — the warm-up clause (`Model/WarmUp.lean`): for restore, prune repacking, repair index,
+      check --read-data and repair hotcold, for both store layouts and EVERY order of the (threaded) reads, every read that
+      reaches the cold store is preceded, in the same command, by a warm-up request for that pack.  The restore case rests
+      on C14's `to_packs_covers_reads` (every plan).  The cold-strict store of the harness checks the real commands.
 -/
 import Rustic.Model.HotCold
+import Rustic.Model.WarmUp
+import Rustic.Lemmas.RestoreWalk
 namespace Rustic.Props.C16
 open Rustic.HotCold
 open Rustic.Backends (FileType Key SpecMap Bytes Name Res)
@@ -344,5 +349,140 @@ example :
                     cold := fun k => if k = (.snapshot, tIdA) then some [1, 2, 3] else none }
     (repairKey s (.snapshot, tIdA)).hot (.snapshot, tIdA) = some [1, 2, 3] ∧
     (repairKey s (.snapshot, tIdA)).cold (.snapshot, tIdA) = some [1, 2, 3] := by decide
+
+
+/-! ### (4) warm-up before cold reads -/
+
+section warmup
+open Rustic.WarmUp
+
+/-- every read served by the cold store is preceded by a warm-up request for the same pack -/
+def WarmBeforeRead (tr : List Ev) : Prop :=
+  ∀ pre p post, tr = pre ++ Ev.coldRead p :: post → Ev.warm p ∈ pre
+
+theorem route_cold_pack {l : Layout} {c : Call} {p : Nat} (h : route l c = Ev.coldRead p) : c.pack = p := by
+  cases c with
+  | full q => cases l <;> simp [route] at h; simpa [Call.pack] using h
+  | partialRead q cb =>
+    cases l
+    · simp only [route] at h
+      split at h
+      · cases h
+      · injection h
+    · simp only [route] at h; injection h
+  | coldDirect q => simp only [route] at h; injection h
+
+theorem coldRead_not_warm (ws : List Nat) (p : Nat) : Ev.coldRead p ∉ warmUpWait ws := by
+  simp [warmUpWait]
+
+/-- one `warm_up_wait` whose argument covers the packs of all reads that follow ⇒ the property, whatever the reads' order -/
+theorem warm_then_reads (l : Layout) (ws : List Nat) (rs : List Call) (h : ∀ c ∈ rs, c.pack ∈ ws) :
+    WarmBeforeRead (trace l ws rs) := by
+  intro pre p post heq
+  unfold trace at heq
+  have good : ∀ (x : List Ev), pre = warmUpWait ws ++ x → Ev.coldRead p ∈ rs.map (route l) → Ev.warm p ∈ pre := by
+    intro x h1 hmem
+    obtain ⟨c, hc, hr⟩ := List.mem_map.1 hmem
+    have hp := route_cold_pack hr
+    rw [h1]
+    refine List.mem_append_left _ ?_
+    simp only [warmUpWait, List.mem_map]
+    exact ⟨p, by rw [← hp]; exact h c hc, rfl⟩
+  rcases List.append_eq_append_iff.1 heq with ⟨a', h1, h2⟩ | ⟨c', h1, h2⟩
+  · exact good a' h1 (by rw [h2]; simp)
+  · cases c' with
+    | nil =>
+      simp only [List.append_nil] at h1
+      simp only [List.nil_append] at h2
+      exact good [] (by simp [h1]) (by rw [← h2]; simp)
+    | cons e c'' =>
+      -- the read would lie inside the warm-up requests: impossible
+      simp only [List.cons_append] at h2
+      injection h2 with h3 _
+      have : Ev.coldRead p ∈ warmUpWait ws := by rw [h1, ← h3]; simp
+      exact absurd this (coldRead_not_warm ws p)
+
+theorem restore_reads_covered (hole limit : Nat) (r : Rustic.RestoreWalk.RInfo) :
+    ∀ c ∈ (restoreCmd hole limit r).reads, c.pack ∈ (restoreCmd hole limit r).warm := by
+  intro c hc
+  simp only [restoreCmd, List.mem_map] at hc
+  obtain ⟨p, hp, rfl⟩ := hc
+  exact Rustic.RestoreWalk.packReads_subset_toPacks hole limit r p hp
+
+theorem prune_reads_covered (idx : List (List PPack)) : ∀ c ∈ (pruneCmd idx).reads, c.pack ∈ (pruneCmd idx).warm := by
+  intro c hc
+  simp only [pruneCmd, List.mem_flatMap, List.mem_replicate] at hc
+  obtain ⟨pk, hpk, _, rfl⟩ := hc
+  simp only [pruneCmd, List.mem_map]
+  exact ⟨pk, hpk, rfl⟩
+
+theorem repairIndex_reads_covered (t : List (Nat × Nat)) :
+    ∀ c ∈ (repairIndexCmd t).reads, c.pack ∈ (repairIndexCmd t).warm := by
+  intro c hc
+  simp only [repairIndexCmd, List.mem_flatMap, List.mem_replicate] at hc
+  obtain ⟨x, hx, _, rfl⟩ := hc
+  simp only [repairIndexCmd, List.mem_map]
+  exact ⟨x, hx, rfl⟩
+
+theorem reads_covered (c : Command) : ∀ x ∈ (cmdOf c).reads, x.pack ∈ (cmdOf c).warm := by
+  cases c with
+  | restore hole limit r => exact restore_reads_covered hole limit r
+  | prune idx => exact prune_reads_covered idx
+  | repairIndex t => exact repairIndex_reads_covered t
+  | checkReadData ps =>
+    intro x hx
+    simp only [cmdOf, checkReadDataCmd, List.mem_map] at hx ⊢
+    obtain ⟨p, hp, rfl⟩ := hx
+    exact hp
+  | repairHotcold m =>
+    intro x hx
+    simp only [cmdOf, repairHotcoldCmd, List.mem_map] at hx ⊢
+    obtain ⟨p, hp, rfl⟩ := hx
+    exact hp
+
+/-- **warmup_before_read.**  For restore (every `RestorePlan`), prune repacking (every plan), repair index, check
+--read-data and repair hotcold, on a hot/cold pair and on a single cold store, and for every order in which the reader
+threads issue the reads: each read that reaches the cold store is preceded by a warm-up request for that pack. -/
+theorem warmup_before_read (l : Layout) (c : Command) (rs : List Call) (hp : rs.Perm (cmdOf c).reads) :
+    WarmBeforeRead (trace l (cmdOf c).warm rs) :=
+  warm_then_reads l _ rs (fun x hx => reads_covered c x (hp.mem_iff.1 hx))
+
+/-- a history of commands: still every cold read has an earlier warm-up request -/
+theorem wbr_append {a b : List Ev} (ha : WarmBeforeRead a) (hb : WarmBeforeRead b) : WarmBeforeRead (a ++ b) := by
+  intro pre p post heq
+  rcases List.append_eq_append_iff.1 heq with ⟨a', h1, h2⟩ | ⟨c', h1, h2⟩
+  · rw [h1]
+    exact List.mem_append_right _ (hb a' p post h2)
+  · cases c' with
+    | nil =>
+      simp only [List.nil_append] at h2
+      have := hb [] p post (by simp [h2])
+      cases this
+    | cons e c'' =>
+      simp only [List.cons_append] at h2
+      injection h2 with h3 h4
+      subst h3
+      exact ha pre p c'' h1
+
+theorem warmup_before_read_history (l : Layout) (cs : List Command) :
+    WarmBeforeRead (cs.flatMap (fun c => trace l (cmdOf c).warm (cmdOf c).reads)) := by
+  induction cs with
+  | nil => intro pre p post h; cases pre <;> cases h
+  | cons c cs ih =>
+    simp only [List.flatMap_cons]
+    exact wbr_append (warmup_before_read l c _ (List.Perm.refl _)) ih
+
+/-- the predicate is not vacuous: a cold read before its warm-up request violates it … -/
+example : ¬ WarmBeforeRead [Ev.coldRead 1, Ev.warm 1] := by
+  intro h
+  have := h [] 1 [Ev.warm 1] rfl
+  cases this
+
+/-- … and a concrete prune: tree pack 3 is read from hot, data pack 5 from cold after its request; pack 8 is kept -/
+example : trace .hotcold (pruneCmd [[⟨3, true, true, 1⟩, ⟨5, false, true, 2⟩], [⟨8, false, false, 4⟩]]).warm
+      (pruneCmd [[⟨3, true, true, 1⟩, ⟨5, false, true, 2⟩], [⟨8, false, false, 4⟩]]).reads =
+    [.warm 3, .warm 5, .hotRead 3, .coldRead 5, .coldRead 5] := by decide
+
+end warmup
 
 end Rustic.Props.C16
